@@ -145,6 +145,7 @@ type End struct {
 	readErr       error        // error returned by a failed Read (default ErrRead)
 	failWriteSet  map[int]bool // one-shot failing write indices
 	lateFailSet   map[int]bool // one-shot indices of writes that are delivered and then reported failed
+	lateFailHold  func()       // if set, runs after such a write was delivered and before its failure is reported
 	writeErr      error        // error returned by a failed Write (default ErrWrite)
 	// OnWriteEntry, if set (use SetOnWriteEntry), is called at the very start of Write, before
 	// any serialisation: parking here models a transport in which concurrent Write calls are
@@ -406,6 +407,7 @@ func (e *End) Write(ctx context.Context, rpc *Rpc) error {
 				cb(n, rec)
 			}
 			if lateFail {
+				e.holdLateFail()
 				return e.werr()
 			}
 			return nil
@@ -432,9 +434,27 @@ func (e *End) Write(ctx context.Context, rpc *Rpc) error {
 		cb(n, rec)
 	}
 	if lateFail {
+		e.holdLateFail()
 		return e.werr()
 	}
 	return nil
+}
+
+// SetLateFailHold installs a function that runs between the delivery of a write that is to be
+// reported failed (DeliverButFailWritesAt) and the report: the time a transport takes to notice.
+func (e *End) SetLateFailHold(f func()) {
+	e.mu.Lock()
+	e.lateFailHold = f
+	e.mu.Unlock()
+}
+
+func (e *End) holdLateFail() {
+	e.mu.Lock()
+	f := e.lateFailHold
+	e.mu.Unlock()
+	if f != nil {
+		f()
+	}
 }
 
 // Kind classifies an envelope for logs and automata.
